@@ -79,7 +79,7 @@ def instances(tier):
 
 # ------------------------------------------------------------------------------------------ ILP reference
 
-def ilp_reference(I, offered, exact, in_model=None, running_as_fresh=False):
+def ilp_reference(I, offered, exact, in_model=None, running_as_fresh=False, row_for_every_worker=False):
     """Independent SMT semantics of 'a feasible plan' under the ILP's time conventions.
     Returns (optimizer-ready constraints, goodput term, per-task vars)."""
     now, P = I.now, I.params
@@ -150,7 +150,8 @@ def ilp_reference(I, offered, exact, in_model=None, running_as_fresh=False):
                         if fw == w_:
                             use = use + z3.If(z3.And(fs <= si_, si_ <= fs + fr), fd.get(rn, 0), 0)
                 else:
-                    use = dem_of(i, rn)
+                    # the ILP writes this row for every (task, worker) pair, whether or not the task itself is on that worker
+                    use = z3.If(wi == w_, dem_of(i, rn), 0) if row_for_every_worker else dem_of(i, rn)
                     for j in names:
                         if j != i:
                             pj, wj, stj, sj, rj = V[j]
@@ -158,7 +159,7 @@ def ilp_reference(I, offered, exact, in_model=None, running_as_fresh=False):
                     for (fw, fs, fr, fd) in fixed:
                         if fw == w_:
                             use = use + z3.If(overlap(si_, ri, fs, fr), fd.get(rn, 0), 0)
-                cons.append(z3.Implies(z3.And(pi_, wi == w_), use <= cap))
+                cons.append(z3.Implies(pi_ if (row_for_every_worker and not exact) else z3.And(pi_, wi == w_), use <= cap))
             if not exact:
                 # the row of a running task: its own demand plus everything overlapping it
                 for (fw, fs, fr, fd) in fixed:
@@ -240,7 +241,12 @@ def check_instance(spec):
             c3, g3, _ = ilp_reference(I, offered, exact=False, in_model=in_model, running_as_fresh=True)
             st3, opt3 = maximize(c3, g3)
             res["queries"] += 1
-            if st3 == "sat" and opt3.as_long() == opt_model and opt_model < opt2 and any(t.state.name == "RUNNING" and t.remaining_time.time < P[tn]["strategies"][mipinst._sidx(I, tn, t.current_placement.execution_strategy)][0] for tn, t in I.tasks.items()):
+            c4, g4, _ = ilp_reference(I, offered, exact=False, in_model=in_model, row_for_every_worker=True)
+            st4, opt4 = maximize(c4, g4)
+            res["queries"] += 1
+            if st4 == "sat" and opt4.as_long() == opt_model and opt_model < opt2 and len(I.workers) > 1:
+                res["violations"].append({"label": "C14:ilp-capacity-row-ignores-which-worker-the-task-is-on", "detail": {"model": opt_model, "reference": opt2, "reference_with_rows_for_every_worker": opt_model}})
+            elif st3 == "sat" and opt3.as_long() == opt_model and opt_model < opt2 and any(t.state.name == "RUNNING" and t.remaining_time.time < P[tn]["strategies"][mipinst._sidx(I, tn, t.current_placement.execution_strategy)][0] for tn, t in I.tasks.items()):
                 res["violations"].append({"label": "C14:ilp-counts-a-running-task-with-its-full-runtime", "detail": {"model": opt_model, "reference": opt2, "reference_with_full_runtime": opt_model}})
             else:
                 res["violations"].append({"label": "C14:ilp-optimum-equals-reference", "detail": {"model": opt_model, "reference": opt2, "exact_reference": opt1}})
@@ -400,6 +406,8 @@ def check_instance(spec):
 def signature(spec, v):
     if v["label"] == "C14:ilp-capacity-row-is-conservative":
         return "ilp-capacity-row-charges-every-overlapping-task-even-if-they-do-not-overlap-each-other"
+    if v["label"] == "C14:ilp-capacity-row-ignores-which-worker-the-task-is-on":
+        return "ilp-capacity-row-of-a-task-is-written-for-every-worker-even-those-it-is-not-placed-on"
     if v["label"] == "C14:ilp-counts-a-running-task-with-its-full-runtime":
         return "ilp-counts-a-running-task-with-its-full-runtime-from-now"
     return f"{spec['kind']}:{v['label']}"
